@@ -14,7 +14,7 @@ import (
 )
 
 // c16OddStrings: argument values for string-typed options - empty, blank-only, separators only, unbalanced, non-UTF-8, long.
-var c16OddStrings = []string{"", " ", "\t", "\n", " \r\n ", "  ", ",", ",,", " , ", "=", "dc=a", "dc=a,", ",dc=a", " dc=a ", "dc=a , dc=b", "\x00", "\xff", "\xff\xfe,",
+var c16OddStrings = []string{"x", "", " ", "\t", "\n", " \r\n ", "  ", ",", ",,", " , ", "=", "dc=a", "dc=a,", ",dc=a", " dc=a ", "dc=a , dc=b", "\x00", "\xff", "\xff\xfe,",
 	"(cn=x)", "((", "))", "(", ")", "()", "(&)", "*", "\\", "\\,", "cn=\\", strings.Repeat("dc=long,", 2000), strings.Repeat(" ", 5000)}
 
 func init() {
@@ -469,6 +469,56 @@ func c16Helpers(c *Ctx) {
 				}
 			}); msg != "" {
 				c16Panic(c, "Mux registration", msg, st, pos+" "+string(trunc([]byte(str), 32)))
+			}
+		}
+	}
+	// every registration method as the FIRST call on a fresh mux, with each string-typed option (whatever a method sets
+	// up lazily must be set up by every method)
+	for mi, method := range []string{"Bind", "Unbind", "Search", "Modify", "Add", "Delete", "ExtendedOperation", "DefaultRoute"} {
+		for si, str := range c16OddStrings {
+			for _, pos := range []string{"WithLabel", "WithBaseDN", "WithFilter"} {
+				if (mi+si)%3 != 0 && str != "x" && str != "dc=a" {
+					continue
+				}
+				str, pos, method := str, pos, method
+				c.Count("calls", 1)
+				c.Count("mux_registration_calls", 1)
+				c.Distinct("calls", fmt.Sprintf("Mux/first-call/%s/%s", method, pos))
+				if msg, st := catch(func() {
+					m, _ := gldap.NewMux()
+					if si%2 == 1 {
+						m = &gldap.Mux{}
+					}
+					var o gldap.Option
+					switch pos {
+					case "WithLabel":
+						o = gldap.WithLabel(str)
+					case "WithBaseDN":
+						o = gldap.WithBaseDN(str)
+					default:
+						o = gldap.WithFilter(str)
+					}
+					switch method {
+					case "Bind":
+						m.Bind(h, o)
+					case "Unbind":
+						m.Unbind(h, o)
+					case "Search":
+						m.Search(h, o)
+					case "Modify":
+						m.Modify(h, o)
+					case "Add":
+						m.Add(h, o)
+					case "Delete":
+						m.Delete(h, o)
+					case "ExtendedOperation":
+						m.ExtendedOperation(h, "1.2.3", o)
+					default:
+						m.DefaultRoute(h, o)
+					}
+				}); msg != "" {
+					c16Panic(c, "Mux registration", msg, st, method+" first, "+pos+" "+string(trunc([]byte(str), 32)))
+				}
 			}
 		}
 	}
